@@ -182,6 +182,19 @@ def replaceAt (t : Raw κ ν) (i : Nat) (v : ν) : Raw κ ν :=
   | .full st k _ => t.setSlot i (.full st k v)
   | _ => t
 
+/-- `get_mut(hash, eq)` followed by a write through the returned reference: the old value, and the
+table with the new value in the same slot (`None`: the key is absent, nothing changes) -/
+def getMut (t : Raw κ ν) (k : κ) (v : ν) : Out (Raw κ ν × Option ν) :=
+  match find hashOf dbg t k with
+  | .ok none => .ok (t, none)
+  | .ok (some i) =>
+    match t.slot i with
+    | .full _ _ old => .ok (replaceAt t i v, some old)
+    | _ => if dbg then .panic else .ub
+  | .hang => .hang
+  | .ub => .ub
+  | .panic => .panic
+
 def insert (t : Raw κ ν) (k : κ) (v : ν) : Out (Raw κ ν × Except Nat Nat) :=
   match findOrFree hashOf dbg t k with
   | .ok (t1, .ok i) => .ok (replaceAt t1 i v, .ok i)
